@@ -588,6 +588,15 @@ class ImplViews(ImplEq):
         self.instance.name = old_name
         if renamed != old_name + "_renamed":
             return f"raise stale-name {renamed}"
+        # an instance may be called anything - also nothing at all: the (empty) name survives the dictionary
+        self.instance.name = ""
+        try:
+            empty_back = jsl.JobShopInstance.from_matrices(**_json.loads(_json.dumps(self.instance.to_dict()))).name
+        except Exception as e:  # pylint: disable=broad-except
+            empty_back = f"raised {type(e).__name__}"
+        self.instance.name = old_name
+        if empty_back != "":
+            return f"raise empty-name-became {empty_back!r}"
         d = self.instance.to_dict()
         d2 = _json.loads(_json.dumps(d))
         try:
@@ -1458,6 +1467,14 @@ class ImplEnv(ImplViz):
 
     def _env_kwargs(self, head, feats, style=0):
         b, rm, rj, rw, pad = head
+        if rm == "1" and rj == "1" and style % 2 == 0:
+            # (the updater options are the library's defaults: half of the time they are left to the library's default argument)
+            return dict(
+                feature_observer_configs=self._feature_configs([(f[0], f[1]) for f in feats], style),
+                reward_function_config=_DOC(REWARDS[rw]),
+                ready_operations_filter=self._make_filter(),
+                use_padding=pad == "1",
+            ), BUILDERS[b]
         return dict(
             feature_observer_configs=self._feature_configs([(f[0], f[1]) for f in feats], style),
             reward_function_config=_DOC(REWARDS[rw]),
@@ -1582,6 +1599,18 @@ class ImplEnv(ImplViz):
             pass        # (a refusing generator, a known finding of the multi environment: the original's own business)
         return "ok"
 
+    def cmd_mother(self, ts):
+        """Somewhere else in the process ANOTHER multi-instance environment is built with all-default options on a graph without job
+        nodes, reset once and dropped: environments do not share anything that one of them may write to."""
+        try:
+            g = GeneralInstanceGenerator(num_jobs=(2, 3), num_machines=(2, 3), duration_range=(1, 5), seed=int(ts[0]) if ts else 0)
+            other = _MultiEnv(instance_generator=g, feature_observer_configs=self._feature_configs([("is_ready", "-")], 0),
+                              graph_initializer=BUILDERS["agent_task"])
+            other.reset()
+        except Exception as e:  # pylint: disable=broad-except
+            return f"sibling-error another environment could not be built: {type(e).__name__}"
+        return "ok"
+
     def cmd_efork(self, ts):
         return self._fork_env("env")
 
@@ -1638,6 +1667,21 @@ class ImplEnv(ImplViz):
         except Exception:  # pylint: disable=broad-except
             return f"act {j} {m} raise"
         return f"act {j} {m} {self._fmt_step(res)}"
+
+    def cmd_edauto(self, ts):
+        """the k-th legal decision dispatched on the environment's OWN dispatcher (an expert driving `env.dispatcher` directly)"""
+        env = self.env
+        acts = self.legal_actions(env)
+        if not acts:
+            return "no-legal-action"
+        j, m = acts[int(ts[0]) % len(acts)]
+        d = env.dispatcher
+        op = d.instance.jobs[j][d.job_next_operation_index[j]]
+        try:
+            d.dispatch(op, op.machines[0] if m == -1 else m)
+        except Exception:  # pylint: disable=broad-except
+            return "raise"
+        return "ok"
 
     def cmd_mbad(self, ts):
         """the k-th ILLEGAL decision in canonical order (jobs 0 … J, machine ids -2 … b); must be rejected"""
